@@ -2,7 +2,7 @@
    non-vacuity examples for the implication-shaped theorems. *)
 From Yv Require Import Common.Base C04.Model C04.Spec.
 From Yv Require Export C04.ProofsParse C04.ProofsRegex C04.ProofsMatch C04.ProofsSem
-  C04.ProofsPattern C04.ProofsOracle.
+  C04.ProofsPattern C04.ProofsOracle C04.ProofsTable.
 From Coq Require Import List NArith Bool Arith Lia.
 Import ListNotations.
 
@@ -12,6 +12,26 @@ Proof.
   induction s as [|c r IH]; cbn [with_escape without_escape map existsb]; intros H; [reflexivity|].
   apply orb_false_iff in H as [H1 H2].
   rewrite N.eqb_sym, H1. unfold without_escape in IH. rewrite IH by exact H2. reflexivity.
+Qed.
+
+Lemma with_escape_all_escaped :
+  forall s, with_escape (flat_map (fun c => [c_bslash; c]) s) = map Literal s.
+Proof.
+  induction s as [|c r IH]; [reflexivity|].
+  cbn [flat_map app with_escape map]. rewrite N.eqb_refl, IH. reflexivity.
+Qed.
+
+(* compilation has a definite outcome whenever the emitted regex is in the
+   modelled syntax (never "unsupported", never out of fuel) *)
+Lemma compile_total cfg p a :
+  parse_pattern p = Some a -> closed_complements a = true ->
+  (exists b, compile cfg p = COk b) \/ (exists e, compile cfg p = CErr e).
+Proof.
+  intros Hp Hcl. rewrite (compile_parse _ _ _ Hp).
+  destruct (to_literal a) as [l|] eqn:Hlit.
+  - left. eexists. apply compile_literal. exact Hlit.
+  - pose proof (compile_ast_cases cfg a Hcl Hlit) as Hc.
+    destruct (rx_of_ast cfg a); [left; eexists; exact Hc|right; exact Hc].
 Qed.
 
 (* ------------------------------------------------------------------ *)
